@@ -1,4 +1,5 @@
 import ArimModel.Interface
+import ArimProofs.Tie.C04
 import ArimProofs.Lemmas.Interface
 import Mathlib.Analysis.SpecialFunctions.Trigonometric.Basic
 import Mathlib.Analysis.SpecialFunctions.Trigonometric.Inverse
@@ -583,5 +584,72 @@ example (asin : ℂ → ℂ) :=
         norm_num [mediaR])
 
 end Examples
+
+
+/-! ## 6. The same statements about the code as translated on this run
+
+`Arim.Src.*` (file `Generated/SrcC04.lean`) is the translation of `fluid_solid`, `solid_l_fluid`, `solid_t_fluid`,
+`_fluid_solid_n`, `snell_angles` made from `/repo/src/arim/model.py` by `harness/py2lean.py` on every run; the tie
+theorems of `Tie/C04.lean` identify them with the model, so the laws above are laws of the translated source. -/
+noncomputable section OnSource
+open Complex Arim.Tie.C04
+
+/-- the numerical routines at `K = ℂ`: `sin`, `cos` are the complex functions, `arcsin` an external routine -/
+def srcOps (asin : ℂ → ℂ) : Src.Ops ℂ :=
+  { sin := Complex.sin, cos := Complex.cos, asin := asin, sqrt := id, exp := Complex.exp, sinc := id,
+    pi := (Real.pi : ℂ), ofNat := fun n => (n : ℂ), ofInt := fun z => (z : ℂ),
+    floor := fun _ => 0, round := fun _ => 0, trunc := fun _ => 0 }
+
+theorem ctrig_srcOps (asin : ℂ → ℂ) : ctrig (srcOps asin) = cTrig asin := rfl
+
+/-- Stokes relation (L) for the translated `solid_l_fluid` / `fluid_solid` -/
+theorem src_stokes_L (asin : ℂ → ℂ) (ρf ρs cf cl ct aF aL aT : ℂ) :
+    (Src.solid_l_fluid (srcOps asin) aL ρf ρs cf cl ct aF aT).2.2 =
+      ρf * cf * cos aL / (ρs * cl * cos aF) * (Src.fluid_solid (srcOps asin) aF ρf ρs cf cl ct aL aT).2.1 := by
+  rw [tie_solid_l_fluid, tie_fluid_solid, ctrig_srcOps]
+  exact stokes_L asin (media ρf ρs cf cl ct) aF aL aT
+
+/-- Stokes relation (T) for the translated `solid_t_fluid` / `fluid_solid` -/
+theorem src_stokes_T (asin : ℂ → ℂ) (ρf ρs cf cl ct aF aL aT : ℂ) (hcl : cl ≠ 0) (hct : ct ≠ 0)
+    (hsnell : cl * sin aT = ct * sin aL) :
+    (Src.solid_t_fluid (srcOps asin) aT ρf ρs cf cl ct aF aL).2.2 =
+      -(ρf * cf * cos aT / (ρs * ct * cos aF)) * (Src.fluid_solid (srcOps asin) aF ρf ρs cf cl ct aL aT).2.2 := by
+  rw [tie_solid_t_fluid, tie_fluid_solid, ctrig_srcOps]
+  exact stokes_T asin (media ρf ρs cf cl ct) aF aL aT hcl hct hsnell
+
+/-- mode-converted reflections of the translated `solid_t_fluid` / `solid_l_fluid` -/
+theorem src_stokes_refl (asin : ℂ → ℂ) (ρf ρs cf cl ct aF aL aT : ℂ) (hcl : cl ≠ 0)
+    (hsnell : cl * sin aT = ct * sin aL) :
+    ct * cos aL * (Src.solid_t_fluid (srcOps asin) aT ρf ρs cf cl ct aF aL).1 =
+      -(cl * cos aT * (Src.solid_l_fluid (srcOps asin) aL ρf ρs cf cl ct aF aT).2.1) := by
+  rw [tie_solid_t_fluid, tie_solid_l_fluid, ctrig_srcOps]
+  exact stokes_refl asin (media ρf ρs cf cl ct) aF aL aT hcl hsnell
+
+/-- **energy conservation of the translated `fluid_solid` called with a real incidence angle and no refracted
+angles** (the code then refracts by its own `snell_angles`): all regimes, complex refracted angles included -/
+theorem src_energy_fluid_solid (asin : ℂ → ℂ) (ρf ρs cf cl ct θ : ℝ)
+    (hL : sin (asin ((cl : ℂ) / cf * sin (θ : ℂ))) = (cl : ℂ) / cf * sin (θ : ℂ))
+    (hT : sin (asin ((ct : ℂ) / cf * sin (θ : ℂ))) = (ct : ℂ) / cf * sin (θ : ℂ))
+    (hcos : Real.cos θ ≠ 0) (hρf : ρf ≠ 0) (hρs : ρs ≠ 0) (hcf : cf ≠ 0) (hcl : cl ≠ 0)
+    (hN : Src.fluid_solid_n (srcOps asin) θ (Src.snell_angles (srcOps asin) θ cf cl)
+      (Src.snell_angles (srcOps asin) θ cf ct) ρf ρs cf cl ct ≠ 0) :
+    Real.cos θ / (ρf * cf) * (1 - normSq (Src.fluid_solid_auto (srcOps asin) θ ρf ρs cf cl ct).1)
+      = (cos (Src.snell_angles (srcOps asin) θ cf cl)).re / (ρs * cl)
+          * normSq (Src.fluid_solid_auto (srcOps asin) θ ρf ρs cf cl ct).2.1
+        + (cos (Src.snell_angles (srcOps asin) θ cf ct)).re / (ρs * ct)
+          * normSq (Src.fluid_solid_auto (srcOps asin) θ ρf ρs cf cl ct).2.2 := by
+  rw [tie_fluid_solid_auto, ctrig_srcOps]
+  rw [tie_fluid_solid_n, tie_snell_angles, tie_snell_angles, ctrig_srcOps] at hN
+  rw [tie_snell_angles, tie_snell_angles, ctrig_srcOps]
+  exact energy_fluid_solid_snell asin ρf ρs cf cl ct θ hL hT hcos hρf hρs hcf hcl hN
+
+/-- the refracted angle of the translated `snell_angles` satisfies Snell's law wherever `sin ∘ arcsin = id` -/
+theorem src_snell_sin (asin : ℂ → ℂ) (a cInc cRef : ℂ) (hc : cInc ≠ 0)
+    (hasin : sin (asin (cRef / cInc * sin a)) = cRef / cInc * sin a) :
+    cInc * sin (Src.snell_angles (srcOps asin) a cInc cRef) = cRef * sin a := by
+  rw [tie_snell_angles, ctrig_srcOps, snell_cTrig, hasin]
+  field_simp
+
+end OnSource
 
 end Arim.C04
